@@ -126,6 +126,24 @@ def numba_newton_raphson(
         # ... and then update the latest point.
         func_evals[2] = function(iterates[2], *function_arguments)
 
+        # If the function cannot be evaluated at the new iterate (NaN) - e.g. because
+        # an accelerated step overshot into a region where it is not defined - retreat
+        # towards the previous iterate (where it could be evaluated). Without this the
+        # NaN propagates into all later iterates and the solve is lost.
+        number_of_retreats = 0
+        while (
+            np.isnan(func_evals[2])
+            and iterates[2] != iterates[1]
+            and number_of_retreats < 10
+        ):
+            iterates[2] = 0.5 * (iterates[2] + iterates[1])
+            func_evals[2] = function(iterates[2], *function_arguments)
+            number_of_retreats += 1
+
+        if np.isnan(func_evals[2]):
+            # Nothing more we can do (all later iterates would be NaN as well).
+            raise ValueError("function evaluates to NaN")
+
         # Every 3rd step we do a Aitken series acceleration step
         aitken_step = aitken_acceleration and current_iteration % 3 == 0
         if aitken_step:
